@@ -15,12 +15,12 @@ RULE = ("all shapes with 1..A axes and lengths 1..5 (A=4 quick, 5 thorough), eac
         "overflow-checked harness; per shape: iter_indices trace past exhaustion, iter_indices call histories mixing next() and nth(k) stepping past the end, get() on every valid index and on "
         "wrong-length/out-of-range indices, get_axis on every (axis, position) incl. axis d, d+1, usize::MAX and "
         "position len, len+1, usize::MAX, every view iterated 2*len+5 times with len() before each call, "
-        "iter_axis traces, sum(axis). A shape is non-trivial when it has >= 2 elements; distinct = distinct (shape, build).")
+        "iter_axis traces, sum(axis); call histories that end in a consuming std adaptor: k x next() (k in 0,1,2,3,len/2,len-1,len,len+1) followed by count / last / fold / for_each / collect / nth(1) / step_by(2) / skip(1).count() / size_hint on every view iterator, on iter_indices and on iter_axis. A shape is non-trivial when it has >= 2 elements; distinct = distinct (shape, build).")
 ASSUMPTIONS = ["array contents are f64 flat positions < 2^53, so element identity is exact",
                "a panic is observed through catch_unwind in the harness (panic=unwind build)"]
 EXHAUSTIVE = {"quick": True, "thorough": True}
-FLOORS = {"quick": {"evaluations": 1000, "distinct_nontrivial": 700, "counts": {"views_iterated": 5000}},
-          "thorough": {"evaluations": 6000, "distinct_nontrivial": 6000, "counts": {"views_iterated": 50000}}}
+FLOORS = {"quick": {"evaluations": 1000, "distinct_nontrivial": 700, "counts": {"views_iterated": 5000, "terminal_adaptor_calls": 200000}},
+          "thorough": {"evaluations": 6000, "distinct_nontrivial": 6000, "counts": {"views_iterated": 50000, "terminal_adaptor_calls": 1000000}}}
 
 
 def shapes(max_axes):
@@ -120,6 +120,29 @@ def check_histories(S, shape, res, kind, histories, bad, is_panic):
                 break
 
 
+def check_terminals(S, what, terms, seq, bad, is_panic):
+    """Histories ending in a consuming adaptor: after k calls of next() the iterator still owes seq[k:] - whichever std method drains it."""
+    if terms is None:
+        return
+    for t in terms:
+        k = t["k"]
+        rem = seq[min(k, len(seq)):]
+        exp = {"count": len(rem), "last": rem[-1] if rem else None, "fold": rem, "for_each": rem, "collect": rem,
+               "nth1": rem[1] if len(rem) > 1 else None, "step2": rem[::2], "skip1_count": max(0, len(rem) - 1)}
+        for name, e in exp.items():
+            g = t.get(name)
+            S.count("terminal_adaptor_calls")
+            if is_panic(g):
+                bad("panic:terminal:%s" % name, "%s: %d x next() then %s() panicked: %s" % (what, k, name, g["panic"]))
+            elif g != e:
+                bad("terminal:%s" % name, "%s: %d x next() then %s() gave %r, expected %r (the iterator still owes %r)" % (what, k, name, g, e, rem[:12]))
+        sh = t.get("size_hint")
+        if is_panic(sh):
+            bad("panic:terminal:size_hint", "%s: %d x next() then size_hint() panicked" % (what, k))
+        elif sh[0] > len(rem) or (sh[1] is not None and sh[1] < len(rem)):
+            bad("terminal:size_hint", "%s: %d x next() then size_hint() = %r but %d items remain" % (what, k, sh, len(rem)))
+
+
 def check_shape(S, shape, res, kind, queries, nvalid, signed=False):
     tag = "%s %s%s" % ("x".join(map(str, shape)), kind, " signed" if signed else "")
     d = len(shape)
@@ -205,6 +228,7 @@ def check_shape(S, shape, res, kind, queries, nvalid, signed=False):
                     bad("view:len", "view(axis=%d,pos=%d) len() before call %d = %r, expected %d" % (a, i, t, ln, exp_len))
                     break
             S.count("view_next_calls", len(tr))
+        check_terminals(S, "view(axis=%d,pos=%d).iter()" % (a, i), r.get("terminals"), exp, bad, is_panic)
         ta = r["to_array"]
         if is_panic(ta):
             bad("panic:to_array", "view.to_array panicked: %s" % ta["panic"])
@@ -230,6 +254,9 @@ def check_shape(S, shape, res, kind, queries, nvalid, signed=False):
                 bad("iter_axis:len", "iter_axis(%d) len() before call %d = %r, expected %d" % (a, t, ln, exp_len))
                 break
         S.count("iter_axis_calls", len(tr))
+    check_terminals(S, "iter_indices()", res.get("index_terminals"), idxs, bad, is_panic)
+    for a, terms in enumerate(res.get("axis_terminals") or []):
+        check_terminals(S, "iter_axis(%d)" % a, terms, [[flat_of[tuple(ix)] for ix in idxs if ix[a] == t] for t in range(shape[a])], bad, is_panic)
     # 5. sum
     for v in res["sum"]:
         a, r = v["axis"], v["r"]
@@ -261,7 +288,7 @@ def shard(S, p):
         q, nv = get_queries(shape, rng)
         hs = index_histories(shape, rng)
         sg = p.get("signed", (sum(shape) + len(shape)) % 2 == 1)       # about half of the shapes hold mixed-sign data
-        reqs.append({"op": "array", "shape": shape, "get": q, "extra": 3, "index_histories": hs, "signed": sg})
+        reqs.append({"op": "array", "shape": shape, "get": q, "extra": 3, "index_histories": hs, "signed": sg, "terminals": True})
         metas.append((q, nv, hs, sg))
     results = harness.run_all(reqs, kind=p["kind"])
     for shape, res, (q, nv, hs, sg) in zip(p["shapes"], results, metas):
